@@ -95,6 +95,50 @@ pub fn pool(args: &[&str]) -> Option<Vec<String>> {
 }
 
 
+/// `tconn <client s|a> <script>`: `test_connection()` of the transport against a scripted peer → `true` / `false` /
+/// `err`, and the units the peer received
+pub fn tconn(args: &[&str]) -> Option<Vec<String>> {
+    let client = *args.first()?;
+    let script = parse_script(args.get(1)?)?;
+    let (listener, port) = listen()?;
+    let server = std::thread::spawn(move || serve_one(listener, script));
+    let hello = ClientId::Domain("c.example".into());
+    let res = match client {
+        "s" => {
+            let t = SmtpTransport::builder_dangerous(crate::util::lo()).port(port).hello_name(hello).timeout(Some(Duration::from_secs(3))).build();
+            let r = t.test_connection();
+            drop(t);
+            r
+        }
+        "a" => {
+            let rt = tokio::runtime::Builder::new_multi_thread().worker_threads(2).enable_all().build().ok()?;
+            let r = rt.block_on(async {
+                let t: AsyncSmtpTransport<Tokio1Executor> =
+                    AsyncSmtpTransport::<Tokio1Executor>::builder_dangerous(crate::util::lo()).port(port).hello_name(hello).timeout(Some(Duration::from_secs(3))).build();
+                let r = match tokio::time::timeout(Duration::from_secs(8), t.test_connection()).await {
+                    Ok(r) => Some(r),
+                    Err(_) => None,
+                };
+                t.shutdown().await;
+                drop(t);
+                r
+            });
+            rt.shutdown_background();
+            r?
+        }
+        _ => return None,
+    };
+    let rec = server.join().ok()?;
+    Some(vec![
+        match res {
+            Ok(true) => "true".into(),
+            Ok(false) => "false".into(),
+            Err(_) => "err".into(),
+        },
+        hex_list(&rec.units),
+    ])
+}
+
 /// `wstall <client s|a> <T ms> <MiB>`: the peer answers up to `354` and then stops reading; the client sends a message too
 /// big for the socket buffers, so it blocks in a *write*. Reports result kind, whether the error says it is a timeout,
 /// and the elapsed time (`HANG` if still blocked after 10 T + 3 s).
